@@ -123,3 +123,22 @@ VARIANTS += [
       "            y[day + 1, away_idx] = -(home_idx + 1)\n", "fire",
       "D13.1"),
 ]
+
+OD = "moptipyapps/dynamic_control/ode.py"
+VARIANTS += [
+    V("training-runs-default-control-width", OD,
+      "        ode = run_ode(sp, equations, controller, parameters, "
+      "controller_dim,\n                      training_steps, "
+      "training_time)",
+      "        ode = run_ode(sp, equations, controller, parameters,\n"
+      "                      steps=training_steps, max_time=training_time)",
+      "fire", "D13.3", "seed C13-training-runs-default-control-width"),
+    V("silent-run-ode-keywords", OD,
+      "        ode = run_ode(sp, equations, controller, parameters, "
+      "controller_dim,\n                      training_steps, "
+      "training_time)",
+      "        ode = run_ode(sp, equations, controller, parameters,\n"
+      "                      controller_dim=controller_dim,\n"
+      "                      steps=training_steps, max_time=training_time)",
+      "silent", "", "keyword spelling of the same call"),
+]
